@@ -914,7 +914,7 @@ def run(ctx, args):
     seed = ctx.seed
     if quick:
         jobs = [
-            Job("laws-depth1-small", 1, leaves=SMALL_LEAVES, weights=(1, 4), zeros=(2,), dercoefs=(1,), dump=False, invs=LAW_INVS),
+            Job("laws-depth1-10leaves", 1, leaves={1, 4, 7, 10, 13, 17, 19, 22, 24, 26}, weights=(1, 4), zeros=(2,), dercoefs=(1,), dump=False, invs=LAW_INVS),
             Job("enum-depth2-small", 2, leaves=SMALL_LEAVES, weights=(1, 4), zeros=(2,), dercoefs=(1, 4)),
             Job("enum-depth1-all", 1),
             Job("sim-depth4", 4, simulate=60, seed=seed),
@@ -928,7 +928,7 @@ def run(ctx, args):
             Job("sim-depth4", 4, simulate=500, seed=seed),
             Job("sim-depth5", 5, simulate=400, seed=seed + 1),
         ]
-    done = run_jobs(ctx, jobs, parallel=2)
+    done = run_jobs(ctx, jobs, parallel=3 if quick else 2)
     print(f"  TLC: {len(jobs)} runs, {sum(j.res.distinct for j in jobs)} states, {time.time() - t0:.1f}s", flush=True)
     for j in jobs:
         if not j.res.ok:
